@@ -225,6 +225,29 @@ def walk_wyckoff(rec, no, rng, draws):
                 if got is not None:
                     probes.setdefault(letter, (atoms, z1))
                     break
+            if got is not None and got != letter:
+                # a random parameter draw can land within the tolerance of a more special position (seen once:
+                # 140 k with x + y = 0.50004): a table error is independent of the parameters, so redraw
+                confirmed = False
+                for redraw in range(12):
+                    vals2 = {v: float(rng.uniform(0.07, 0.43)) for v in "xyz"}
+                    S2 = position_points(info, trans, vals2)
+                    atoms2, z2 = probe_crystal(rng, no, S2[0], scale=1.0 + 0.1 * redraw)
+                    if atoms2 is None:
+                        continue
+                    got2, why2 = controlled_letters(atoms2, no, z2)
+                    if got2 is None:
+                        continue
+                    if got2 == letter:
+                        got = letter
+                        rec.note("letter_probe_coincidence_redrawn")
+                    else:
+                        got, atoms, vals = got2, atoms2, vals2      # reproduced on an independent draw
+                    confirmed = True
+                    break
+                if not confirmed:
+                    got = None
+                    rec.note("letter_mismatch_not_reproducible")
             if got is None:
                 rec.ood(M_WYL); rec.note("letter_probe_uncontrolled")
             else:
